@@ -348,7 +348,7 @@ func (m *Machine) spawn(fr *frame, pos token.Pos, fn value, args []value) {
 			if s.dead {
 				return
 			}
-			m.handoff(g)
+			m.safeHandoff(g)
 		}()
 		root := &frame{m: m, g: g, fn: nil, info: &fnInfo{}, depth: 0}
 		m.call(root, pos, fn, args)
@@ -393,6 +393,25 @@ func (m *Machine) pickNextX(g *goroutine, exclude bool) *goroutine {
 		return cands[m.schedChoice(len(cands), "next")]
 	}
 	return cands[0]
+}
+
+// safeHandoff is handoff for a finished non-main goroutine: a path abort
+// raised while choosing the next goroutine is forwarded to the main goroutine.
+func (m *Machine) safeHandoff(g *goroutine) {
+	s := &m.sched
+	defer func() {
+		if r := recover(); r != nil {
+			if _, ok := r.(killed); ok {
+				return
+			}
+			if s.crash == nil {
+				s.crash = r
+			}
+			s.cur = s.gs[0]
+			s.gs[0].wake <- struct{}{}
+		}
+	}()
+	m.handoff(g)
 }
 
 // handoff passes the baton from g (which is done or blocked) to another goroutine.
